@@ -1180,12 +1180,12 @@ func (l *c19Len) indexUntrusted(v ssa.Value, depth int) string {
 }
 
 func c19RunD9(c *Ctx, l *c19Len) {
-	nSites := 0
+	nSites, nCopies := 0, 0
 	for _, fn := range c.W.ModFuncs {
 		if fn.Synthetic != "" && fn.Origin() == nil {
 			continue
 		}
-		k := 0
+		k, kc := 0, 0
 		for _, b := range fn.Blocks {
 			if b == fn.Recover {
 				continue
@@ -1197,6 +1197,24 @@ func c19RunD9(c *Ctx, l *c19Len) {
 					x, idx = u.X, u.Index
 				case *ssa.Index:
 					x, idx = u.X, u.Index
+				case *ssa.Call:
+					// the other way a fixed-size array is filled from a byte slice: copy(arr[:], s)
+					// moves min(len) elements and cannot run over either side
+					if bi, isB := u.Call.Value.(*ssa.Builtin); isB && bi.Name() == "copy" && len(u.Call.Args) == 2 {
+						if sl, isS := u.Call.Args[0].(*ssa.Slice); isS {
+							if n, isA := c19ArrayLen(sl.X.Type()); isA {
+								nCopies++
+								kc++
+								c.analysed(fn)
+								construct := fmt.Sprintf("%s+copy into [%d]%s", fnName(fn), n, types.TypeString(c19ArrayElem(sl.X.Type()), c19Qual))
+								if kc > 1 {
+									construct += fmt.Sprintf("#%d", kc)
+								}
+								c.ok("D9", construct, posOf(in), "the array of %d elements is filled by copy, which moves at most %d elements whatever the length of the source", n, n)
+							}
+						}
+					}
+					continue
 				default:
 					continue
 				}
@@ -1238,6 +1256,7 @@ func c19RunD9(c *Ctx, l *c19Len) {
 		}
 	}
 	c.count("D9.array_index_sites_with_variable_index", nSites)
+	c.count("D9.array_copy_sites", nCopies)
 }
 
 func c19ArrayElem(t types.Type) types.Type {
